@@ -16,6 +16,9 @@ CASES = [
     ("F22 get_mix_valve_params (no RQ regex)", lambda: Command.get_mix_valve_params(CTL, "01")),
     ("F23 get_system_log_entry idx=0x40", lambda: Command.get_system_log_entry(CTL, 0x40)),
     ("F24 put_actuator_state 50%", lambda: Command.put_actuator_state(BDR, 0.5)),
+    ("F33 put_presence_detected True", lambda: Command.put_presence_detected("37:123456", True)),
+    ("F33 put_presence_detected False", lambda: Command.put_presence_detected("37:123456", False)),
+    ("F33 put_presence_detected None", lambda: Command.put_presence_detected("37:123456", None)),
 ]
 bad = 0
 for name, build in CASES:
